@@ -183,7 +183,7 @@ def has_nth(e):
     key = e.get_id()
     r = _nth_cache.get(key)
     if r is not None:
-        return r
+        return r[0]
     r = False
     stack = [e]
     seen = set()
@@ -200,7 +200,9 @@ def has_nth(e):
             stack.extend(x.children())
         elif z3.is_quantifier(x):
             stack.append(x.body())
-    _nth_cache[key] = r
+    # (the expression is kept alive with the entry: z3 re-uses the ids of
+    # collected ASTs, an id-keyed cache must own what it is keyed by)
+    _nth_cache[key] = (r, e)
     return r
 
 
@@ -220,7 +222,7 @@ def symbols_of(e):
     key = e.get_id()
     r = _sym_cache.get(key)
     if r is not None:
-        return r
+        return r[0]
     out = set()
     stack = [e]
     seen = set()
@@ -238,7 +240,7 @@ def symbols_of(e):
         elif z3.is_quantifier(x):
             stack.append(x.body())
     r = frozenset(out)
-    _sym_cache[key] = r
+    _sym_cache[key] = (r, e)
     return r
 
 
@@ -257,9 +259,9 @@ def fingerprint(e):
     r = _fp_cache.get(key)
     if r is None:
         txt = _re.sub(r'!\d+', '', e.sexpr())
-        r = _hashlib.sha1(txt.encode('utf-8')).hexdigest()[:12]
+        r = (_hashlib.sha1(txt.encode('utf-8')).hexdigest()[:12], e)
         _fp_cache[key] = r
-    return r
+    return r[0]
 
 
 def strip_path(label):
@@ -378,10 +380,11 @@ class Ctx(object):
         key = (tuple(a.get_id() for a in self.pc), extra.get_id())
         r = _feas_cache.get(key)
         if r is None:
-            r = smt.quick_check(self.pc + [extra],
-                                timeout_ms=self.engine.feas_timeout_ms)
+            r = (smt.quick_check(self.pc + [extra],
+                                 timeout_ms=self.engine.feas_timeout_ms),
+                 list(self.pc), extra)     # owns its keys (ids are re-used)
             _feas_cache[key] = r
-        return r != smt.UNSAT
+        return r[0] != smt.UNSAT
 
     def decide(self, cond):
         """Path-sensitive simplification: True / False when the path
@@ -401,8 +404,9 @@ class Ctx(object):
                 r = 'true'
             elif smt.quick_check(base + [cond], 150) == smt.UNSAT:
                 r = 'false'
+            r = (r, list(base), cond)     # owns its keys
             _feas_cache[key] = r
-        return {'true': True, 'false': False, 'none': None}[r]
+        return {'true': True, 'false': False, 'none': None}[r[0]]
 
     def ite(self, cond, a, b):
         d = self.decide(cond)
